@@ -2,3 +2,4 @@
 pub mod preprocess;
 pub mod glyf_min;
 pub mod glyf_lite;
+pub mod varmodel;
